@@ -20,7 +20,7 @@ import sys
 from pathlib import Path
 
 _DUMP = r"""
-import json, sys, os
+import json, sys, os, ast, inspect, textwrap
 import liquid
 from liquid import Environment
 from liquid.mode import Mode
@@ -28,6 +28,44 @@ from liquid import analyze_tags as at
 root = os.path.realpath(sys.argv[1])
 if not os.path.realpath(liquid.__file__).startswith(root + os.sep):
     raise SystemExit("liquid imported from %s, not from %s" % (liquid.__file__, root))
+from liquid.token import TOKEN_EOF
+def parser_names(tag):
+    # tag names the tag's parse code looks for in the token stream: the end tuples of every parse_block /
+    # eat_block call, the values of stream.expect(TOKEN_TAG, ..), stream.current.is_tag(..) and comparisons of
+    # stream.current.value; argument expressions are evaluated in the tag module's namespace
+    cls = type(tag)
+    tree = ast.parse(textwrap.dedent(inspect.getsource(cls)))
+    mod = sys.modules[cls.__module__]
+    found = set()
+    def ev(node):
+        v = eval(compile(ast.Expression(node), "<c21>", "eval"), dict(mod.__dict__), {"self": tag})
+        vs = [v] if isinstance(v, str) else list(v)
+        for x in vs:
+            if not isinstance(x, str):
+                raise SystemExit("non-string tag name in %s: %s" % (cls.__name__, ast.unparse(node)))
+            found.add(x)
+    for n in ast.walk(tree):
+        if isinstance(n, ast.Call):
+            f = n.func
+            fname = f.attr if isinstance(f, ast.Attribute) else (f.id if isinstance(f, ast.Name) else None)
+            kw = {k.arg: k.value for k in n.keywords}
+            if fname in ("parse_block", "eat_block"):
+                arg = kw.get("end") or (n.args[1] if len(n.args) > 1 else None)
+                if arg is None:
+                    raise SystemExit("cannot find the end tuple of %s" % ast.unparse(n))
+                ev(arg)
+            elif fname in ("expect", "expect_peek"):
+                arg = kw.get("value") or (n.args[1] if len(n.args) > 1 else None)
+                if arg is not None:
+                    ev(arg)
+            elif fname == "is_tag":
+                ev(n.args[0])
+        elif isinstance(n, ast.Compare) and len(n.ops) == 1 and isinstance(n.ops[0], (ast.Eq, ast.NotEq, ast.In, ast.NotIn)):
+            l = n.left
+            if isinstance(l, ast.Attribute) and l.attr == "value" and "current" in ast.unparse(l):
+                ev(n.comparators[0])
+    found.discard(TOKEN_EOF)
+    return sorted(found)
 def dump(env):
     out = []
     for key, tag in env.tags.items():
@@ -35,7 +73,8 @@ def dump(env):
         if not isinstance(key, str) or not isinstance(name, str) or not isinstance(end, str) or not isinstance(block, bool):
             raise SystemExit("unexpected registry entry %r" % (key,))
         out.append({"key": key, "name": name, "block": block, "end": end,
-                    "lax": getattr(tag, "mode", None) == Mode.LAX, "cls": type(tag).__name__})
+                    "lax": getattr(tag, "mode", None) == Mode.LAX, "cls": type(tag).__name__,
+                    "pnames": parser_names(tag)})
     return out
 inner = {k: list(v) for k, v in at.DEFAULT_INNER_TAG_MAP.items()}
 print(json.dumps({"default": dump(Environment()), "extra": dump(Environment(extra=True)), "inner": inner,
@@ -109,6 +148,11 @@ def emit(repo: Path) -> dict:
             )
         # the comment must not swallow the separating comma: put commas in front
         lines.append("\n".join(("   " if i == 0 else "  ,") + r[2:] for i, r in enumerate(rows)))
+        lines.append("]")
+        lines.append("")
+        lines.append(f"/-- tag names each registered tag's parse code looks for (parse_block/eat_block end tuples, expect, is_tag) -/")
+        lines.append(f"def {envname}ParserNames : List (TagName × List TagName) := [")
+        lines.append(",\n".join(f"  ({lean_name(e['key'])}, [{', '.join(lean_name(x) for x in e['pnames'])}])" for e in t[envname]))
         lines.append("]")
         lines.append("")
         lines.append(f"def {envname}Env : EnvTable := {{ tags := {envname}Tags, inner := innerMap, nestingLimit := nestingLimit }}")
